@@ -183,3 +183,25 @@ def add_unlisted_actions(rng, m, k=1):
     m["render"]["has_init_policy"] = True
     m["pol0"] = [rng.randrange(na + k) if rng.random() < 0.6 else na + rng.randrange(k) for _ in range(ns)]
     return m
+
+
+def dag(rng, depth=None, width=2, na=2, rmax=4):
+    """Episodic (acyclic) deterministic MDP: layers of states, every action moves one layer down, the last layer is one
+    absorbing state with reward 0.  Value iteration reaches the exact fixed point after depth+1 sweeps, so the sweep at
+    which it stops has a convergence measure of exactly 0, while the greedy policy keeps changing until then (rewards
+    are largest near the bottom: the first sweeps prefer other actions than the final values do)."""
+    depth = depth or rng.randint(3, 6)
+    layers = [[l * width + j for j in range(width)] for l in range(depth)]
+    sink = depth * width
+    ns = sink + 1
+    m = T.random_mdp(rng, ns=ns, na=na, ne=1, PD=1, rmax=rmax, plain_render=True)
+    for l, layer in enumerate(layers):
+        below = layers[l + 1] if l + 1 < depth else [sink]
+        for s in layer:
+            for a in range(na):
+                m["next"][s][a] = [rng.choice(below)]
+                m["rew"][s][a] = [rng.randint(0, rmax) * (2 if l == depth - 1 else 1)]
+                m["pk"][s][a] = [1]
+    for a in range(na):
+        m["next"][sink][a], m["rew"][sink][a], m["pk"][sink][a] = [sink], [0], [1]
+    return m
